@@ -102,7 +102,7 @@ def floors(tier):
             "raised_ValidationError": 20000, "raised_RefResolutionError": 50, "raised_UnknownType": 20,
             "distinct_nontrivial": 20000, "entry:is_valid": 10000, "entry:iter_errors": 10000,
             "entry:validate": 2000, "entry:module_validate": 2000, "entry:with_format_checker": 2000,
-            "pairs_consulting": 500, "hostile_string_schemas": 1000, "reused_validator_sequences": 500}
+            "pairs_consulting": 500, "hostile_string_schemas": 1000, "reused_validator_sequences": 500, "stacked_applicator_schemas": 40}
 
 
 # --------------------------------------------------------------------- known-finding classifiers
@@ -475,6 +475,75 @@ def _core(ctx, R):
             if isinstance(s, dict) and impl.IDKW[d] not in s:
                 # the same under a root id (a base URI is pushed for every call)
                 R.reused(d, dict(s, **{impl.IDKW[d]: "http://vf.example/root.json"}), [{"p": 1}, {}, [1, [2]], {"a": {"a": 1}}, 1])
+        for s, insts in _stacked(d):
+            idx += 1
+            if not ctx.mine(idx):
+                continue
+            if not gate(ctx, d, s):
+                ctx.count("stacked_schema_rejected")
+                continue
+            ctx.count("stacked_applicator_schemas")
+            for inst in insts:
+                R.case(d, s, inst, full=True)
+
+
+DEEP = 22
+
+
+def _stacked(d):
+    """(schema, instances) where one applicator is stacked DEEP levels (in the schema, or - through a recursive reference -
+    in the instance) over a leaf the instance fails or passes: the number of steps grows with the depth, not with 2**depth."""
+    def chain(wrap, leaf):
+        s = leaf
+        for _ in range(DEEP):
+            s = wrap(s)
+        return s
+    null = {"type": "null"}
+    out = []
+    if d >= 4:
+        out += [(chain(lambda s: {"anyOf": [{"type": "string"}, s]}, null), [1, None, "s"]),
+                (chain(lambda s: {"anyOf": [s, {"type": "string"}]}, null), [1, None]),
+                (chain(lambda s: {"oneOf": [{"type": "string"}, s]}, null), [1, None]),
+                (chain(lambda s: {"allOf": [s, {}]}, null), [1, None]),
+                (chain(lambda s: {"allOf": [{"minimum": 0}, s, {"maximum": 0}]}, null), [1, None]),
+                (chain(lambda s: {"not": {"not": s}}, null), [1, None]),
+                (chain(lambda s: {"dependencies": {"a": s}}, {"required": ["b"]}), [{"a": 1}, {"a": 1, "b": 1}, {}]),
+                ({"anyOf": [{"type": "string"}, {"type": "array", "items": {"$ref": "#"}}]}, [_nest_list(DEEP, 5), _nest_list(DEEP, "s")]),
+                ({"oneOf": [{"type": "string"}, {"type": "array", "items": {"$ref": "#"}}]}, [_nest_list(DEEP, 5), _nest_list(DEEP, "s")]),
+                ({"definitions": {"t": {"anyOf": [{"type": "null"}, {"properties": {"a": {"$ref": "#/definitions/t"}}, "required": ["a"]}]}},
+                  "$ref": "#/definitions/t"}, [_deep_obj(DEEP, 5), _deep_obj(DEEP, None)])]
+    else:
+        out += [(chain(lambda s: {"extends": [s, {}]}, null), [1, None]),
+                (chain(lambda s: {"extends": s}, null), [1, None]),
+                (chain(lambda s: {"type": [s, "string"]}, null), [1, None, "s"]),
+                (chain(lambda s: {"type": ["string", s]}, null), [1, None]),
+                (chain(lambda s: {"disallow": [{"disallow": [s]}]}, null), [1, None]),
+                (chain(lambda s: {"dependencies": {"a": s}}, {"properties": {"b": {"required": True}}}), [{"a": 1}, {"a": 1, "b": 1}]),
+                ({"type": ["string", {"type": "array", "items": {"$ref": "#"}}]}, [_nest_list(DEEP, 5), _nest_list(DEEP, "s")])]
+    if d >= 6:
+        out += [(chain(lambda s: {"contains": s}, null), [_nest_list(DEEP, 5), _nest_list(DEEP, None)]),
+                (chain(lambda s: {"propertyNames": {"anyOf": [{"maxLength": 0}, s]}}, {"maxLength": 0}), [{"ab": 1}, {"": 1}])]
+    if d >= 7:
+        out += [(chain(lambda s: {"if": {}, "then": s}, null), [1, None]), (chain(lambda s: {"if": False, "else": s}, null), [1, None]),
+                (chain(lambda s: {"if": s, "then": {"type": "null"}, "else": {"type": "integer"}}, null), [1, None, "s"])]
+    out += [(chain(lambda s: {"items": s}, null), [_nest_list(DEEP, 5), _nest_list(DEEP, None)]),
+            (chain(lambda s: {"properties": {"a": s}}, null), [_deep_obj(DEEP, 5), _deep_obj(DEEP, None)]),
+            (chain(lambda s: {"additionalProperties": s, "properties": {"b": {}}}, null), [_deep_obj(DEEP, 5), _deep_obj(DEEP, None)])]
+    return out
+
+
+def _nest_list(n, leaf):
+    x = leaf
+    for _ in range(n):
+        x = [x]
+    return x
+
+
+def _deep_obj(n, leaf):
+    x = leaf
+    for _ in range(n):
+        x = {"a": x}
+    return x
 
 
 HOSTILE_STRINGS = ["%", "%s", "%d", "%(x)s", "%%", "50%", "{}", "{0}", "{error}", "{file_name}", "\\", "'", '"', "a\nb", "\x00",
